@@ -51,6 +51,7 @@ func main() {
 		"the must-reject claim for 1-4 substitutions is applied to native strings only (as the property states); for plugin strings and bare bech32 only the any-string claims (non-ASCII, mixed case, padding) and the canonical invariant are applied, plus single in-alphabet substitutions at the bech32 level (always detected by the checksum)",
 		"the canonical invariant at the bare bech32.Decode level is not demanded for human-readable parts without any letter (no native or plugin string has one); such acceptances are counted, not reported",
 		"a valid string is one spelled by the independent reference Bech32 encoder (refage), itself validated against the CCTV vectors at start-up",
+		"checksum algebra: the same HRP+payload re-checksummed for the listed other remainders (Bech32m, 0, 2, 3, 0x3fffffff, every single-bit change of 1, six other ways of feeding the HRP into the checksum), and every 1-4 position substitution pattern that moves a valid string onto such a remainder (found by a meet-in-the-middle search over pair syndromes; counts per target under coverage.algebraic_search); patterns inside the HRP are not searched",
 		"plugin names: exhaustive to length 2 (quick) / 3 (thorough) over the allowed set plus / \\ : space; payloads 0-64 bytes",
 	}
 	r.MinEvals, r.MinDistinct = 200000, 3000
@@ -78,6 +79,8 @@ func main() {
 	jobs = append(jobs, jobsPrefixes()...)
 	jobs = append(jobs, jobsPluginNames()...)
 	jobs = append(jobs, jobsBech32Level()...)
+	jobs = append(jobs, jobsRespell(bases)...)
+	jobs = append(jobs, jobsAlgebraicSubst(bases)...)
 	r.Set("jobs", len(jobs))
 	mon.Par(len(jobs), func(i int) {
 		b := newBatch()
@@ -95,6 +98,7 @@ func main() {
 	if agg.get("workload", "identity base strings with K in the data part") == 0 {
 		r.Inconclusive("no upper-case base string carries a K in its data part: the KELVIN SIGN case was never exercised")
 	}
+	finishAlgebra()
 	flushViolations()
 	agg.publish(r)
 	ex := false
